@@ -5,7 +5,10 @@ A graph on n variables v0..v(n-1): each variable has a definition kind
    E  explicit equation      v = c + sum(reads)
    S  state                  dv/dt = c + sum(reads), initial value
    N  implicit equation      v + sum(reads) = 2*v - c     (unknown cannot be isolated: one-unknown NLA system)
-   G  the same with an initial guess on v. CellML cannot tell a guess from a constant, so a G that reads other variables has
+   C  coupled implicit equations: all C variables of a graph (at least two) form ONE NLA system,
+         v_i + sum(other C variables) + sum(reads) = 4*v_i - c_i ;   every member carries an initial guess (libcellml only recognises
+         a system through initialised unknowns); their reads are limited to states and t
+   G  the same as N with an initial guess on v. CellML cannot tell a guess from a constant, so a G that reads other variables has
       two legitimate readings (v unknown / v constant and the equation defines the other variable): by default G reads nothing;
       graphs(..., g_reads=True) lifts that (used by C20 with a reading-agnostic oracle: every equation must be satisfied)
 and a read set (other variables, and optionally the variable of integration t when the model has a state).
@@ -13,7 +16,7 @@ Variables are placed in one of two sibling components; a read across components 
 Everything the oracles need (roles, model type, values) is computed here from the spec alone."""
 import itertools
 
-KINDS = 'KESNG'   # G = implicit equation whose unknown carries an initial guess (and is the only initialised variable in it)
+KINDS = 'KESNGC'   # G = implicit equation whose unknown carries an initial guess (and is the only initialised variable in it)
 CONST = {0: 1.5, 1: -2.25, 2: 3.75, 3: 0.6}     # per-variable literal c / initial value
 INIT = {0: 0.8, 1: 1.3, 2: -0.7, 3: 2.2}
 VOI = 0.75
@@ -25,6 +28,8 @@ def graphs(n, max_edges=None, g_reads=False):
     out = []
     others = lambda i: [j for j in range(n) if j != i]
     for kinds in itertools.product(KINDS, repeat=n):
+        if kinds.count('C') == 1:
+            continue  # a single coupled variable is just an N
         has_state = 'S' in kinds
         opts = []
         for i, k in enumerate(kinds):
@@ -37,6 +42,8 @@ def graphs(n, max_edges=None, g_reads=False):
                 for c in itertools.combinations(base, r):
                     if k == 'E' and not c:
                         continue  # v = literal: role ambiguous (constant vs computed constant), excluded
+                    if k == 'C' and any(j != 't' and kinds[j] != 'S' for j in c):
+                        continue
                     if k == 'G' and c and not g_reads:
                         continue  # a guessed unknown next to ANY other variable is ambiguous (constant + equation for the other variable, or unknown)
                     if k == 'G' and any(j != 't' and kinds[j] in 'KG' for j in c):
@@ -69,7 +76,7 @@ def explicit_acyclic(kinds, reads):
         color[i] = 2
         return True
     for i in range(n):
-        if kinds[i] in 'ENG' and color[i] == 0:
+        if kinds[i] in 'ENGC' and color[i] == 0:
             if not dfs(i):
                 return False
     return True
@@ -89,6 +96,8 @@ def truth(kinds, reads):
             r = True
         elif k == 'K':
             r = False
+        elif k == 'C':
+            r = any(j == 't' or timevarying(j) for c_ in range(n) if kinds[c_] == 'C' for j in reads[c_])
         else:
             r = any(j == 't' or timevarying(j) for j in reads[i])
         memo[i] = r
@@ -99,7 +108,7 @@ def truth(kinds, reads):
         if i in memo2:
             return memo2[i]
         memo2[i] = False
-        r = kinds[i] in 'NG' or (kinds[i] == 'E' and any(j != 't' and via_nla(j) for j in reads[i]))
+        r = kinds[i] in 'NGC' or (kinds[i] == 'E' and any(j != 't' and via_nla(j) for j in reads[i]))
         memo2[i] = r
         return r
     roles = []
@@ -116,7 +125,7 @@ def truth(kinds, reads):
             roles.append({'algebraic', 'computed_constant'})
         else:
             roles.append({'computed_constant'})
-    has_s, has_n = 'S' in kinds, ('N' in kinds or 'G' in kinds)
+    has_s, has_n = 'S' in kinds, ('N' in kinds or 'G' in kinds or 'C' in kinds)
     mtype = 'dae' if has_s and has_n else 'ode' if has_s else 'nla' if has_n else 'algebraic'
     return roles, mtype
 
@@ -127,6 +136,27 @@ def values(kinds, reads, ext=None):
     n = len(kinds)
     val = {}
     ext = ext or {}
+    cgroup = [i for i in range(n) if kinds[i] == 'C']
+
+    def solve_group():
+        free = [i for i in cgroup if i not in ext]
+        # -3 v_i + sum_{j in C, j != i} v_j = -c_i - R_i   (external members are known values)
+        A, b = [], []
+        for i in free:
+            rhs = -CONST[i] - sum(get(j) for j in sorted(reads[i], key=str)) - sum(ext[j] for j in cgroup if j in ext and j != i)
+            A.append([(-3.0 if j == i else 1.0) for j in free])
+            b.append(rhs)
+        m = len(free)
+        M_ = [A[r_] + [b[r_]] for r_ in range(m)]
+        for col in range(m):
+            piv = max(range(col, m), key=lambda r_: abs(M_[r_][col]))
+            M_[col], M_[piv] = M_[piv], M_[col]
+            for r_ in range(m):
+                if r_ != col:
+                    f_ = M_[r_][col] / M_[col][col]
+                    M_[r_] = [x - f_ * y for x, y in zip(M_[r_], M_[col])]
+        for k_, i in enumerate(free):
+            val[i] = M_[k_][m] / M_[k_][k_]
 
     def get(i):
         if i == 't':
@@ -136,6 +166,9 @@ def values(kinds, reads, ext=None):
         if i in val:
             return val[i]
         k = kinds[i]
+        if k == 'C':
+            solve_group()
+            return val[i]
         if k in 'KS':
             val[i] = INIT[i]
         elif k == 'E':
@@ -166,8 +199,12 @@ class Layout:
 
     def __init__(self, kinds, reads, place, perm_comp=False, rev_vars=False, rev_eqs=False, rename=0, drop_eq=None, dup_eq=None, drop_init=None, ncomp=None,
                  init_on_twin=False, long=None):
-        self.kinds, self.reads, self.place = kinds, reads, place
+        self.kinds, self.place = kinds, place
         self.n = len(kinds)
+        self.declared_reads = reads
+        cg = [i for i in range(len(kinds)) if kinds[i] == 'C']
+        # the members of the coupled system appear in each other's equations
+        self.reads = tuple(frozenset(reads[i]) | (frozenset(j for j in cg if j != i) if kinds[i] == 'C' else frozenset()) for i in range(len(kinds)))
         self.perm_comp, self.rev_vars, self.rev_eqs, self.rename = perm_comp, rev_vars, rev_eqs, rename
         self.drop_eq, self.dup_eq, self.drop_init = drop_eq, dup_eq, drop_init
         self.init_on_twin, self.long = init_on_twin, long
@@ -250,8 +287,8 @@ class Layout:
             iv = ''
             if self.kinds[i] in 'KS' and self.drop_init != i and i not in iv_on_twin:
                 iv = ' initial_value="%r"' % INIT[i]
-            if self.kinds[i] == 'G':
-                iv = ' initial_value="0.5"'
+            if self.kinds[i] in 'GC':
+                iv = ' initial_value="0.5"'  # an initial guess
             comp_vars[c].append('<variable name="%s" units="%s" interface="public"%s/>' % (self.home_name[i], u(i), iv))
         used_t = self.has_state
         if used_t:
@@ -274,7 +311,7 @@ class Layout:
                 e = '<apply><eq/><apply><diff/><bvar><ci>%s</ci></bvar>%s</apply>%s</apply>' % (self.name_in('t', c), me, rhs)
             else:
                 lhs = '<apply><plus/>%s%s</apply>' % (me, rd if rd else cn(0.0))
-                e = '<apply><eq/>%s<apply><minus/><apply><times/>%s%s</apply>%s</apply></apply>' % (lhs, cn(2.0), me, cn(CONST[i]))
+                e = '<apply><eq/>%s<apply><minus/><apply><times/>%s%s</apply>%s</apply></apply>' % (lhs, cn(4.0 if k == 'C' else 2.0), me, cn(CONST[i]))
             eq_of[i] = (c, e)
         for i in range(self.n):
             if i in eq_of and i != self.drop_eq:
